@@ -32,6 +32,10 @@ Record case := {
   c_go_groups : option (list (bytes * Z) * bool);   (* convert.ParseGroups on the groups body: callbacks, err == nil *)
   c_go_lines : option (list (bytes * N) * bool);    (* convert.ParseIndividualLines on the lines body, sorted by key *)
   c_raw : option (bytes * (list (bytes * Z) * bool) * (list (bytes * N) * bool));  (* arbitrary body through both parsers *)
+  (* a burst of distinct jobs handed to ONE remote uploader with several upload threads: each job with the single
+     (stack, count) its trie holds, and every request the server received: decoded query, Iterate of the decoded body *)
+  c_burst : list (upload_job * (bytes * N));
+  c_burst_got : list (query * list (bytes * N));
   c_names : list (list N);          (* every series name this case uploaded under, as runes ([]rune(name): Go's UTF-8 decoding) *)
   c_stored_keys : list bytes;       (* the segment keys found in the storage's index for this case's applications *)
   c_remote_rawq : option bytes;     (* r.URL.RawQuery of the request remote.uploadProfile sent *)
@@ -130,6 +134,15 @@ Definition query_agrees (model got : query) : bool :=
 (* the key text storage uses for a name: Key.Normalized() of storage.ParseKey(name), UTF-8 encoded *)
 Definition expected_key (name : list N) : bytes := Key.utf8 (Key.normalized (Key.parse name)).
 
+Definition body_is (sv : bytes * N) (l : list (bytes * N)) : bool :=
+  match l with [x] => kvN_eqb x sv | _ => false end.
+(* every job of the burst arrived exactly once, and with its own name, window and metadata *)
+Definition burst_ok (burst : list (upload_job * (bytes * N))) (got : list (query * list (bytes * N))) : bool :=
+  forallb (fun js => match filter (fun g => body_is (snd js) (snd g)) got with
+                     | [g] => query_agrees (upload_query (fst js)) (fst g)
+                     | _ => false
+                     end) burst.
+
 Definition check_case (c : case) : verdict :=
   let want := from_multiset (c_ms c) in
   let m := match c_meta c with Some m => m | None => default_meta end in
@@ -138,6 +151,8 @@ Definition check_case (c : case) : verdict :=
      [ spec (forallb (fun k => existsb (beqb k) (c_stored_keys c)) expected
              && forallb (fun k => existsb (beqb k) expected) (c_stored_keys c))
             "the profiles are not stored under exactly the series whose key is the normalised form of the name sent (sorted tags, trimmed, last duplicate wins)" ]) ++
+    [ spec (burst_ok (c_burst c) (c_burst_got c))
+           "remote uploader with several threads: a job of the burst did not arrive exactly once under its own name, window and metadata" ] ++
     check_sent "collapsed text" FGroups want m (c_groups c) ++
     check_sent "one stack per line" FLines want m (c_lines c) ++
     check_sent "trie" FTrie want m (c_trie c) ++
